@@ -4,6 +4,8 @@ import (
 	"crypto/sha1"
 	"encoding/hex"
 	"fmt"
+	"github.com/jsightapi/jsight-api-core/directive"
+	"regexp"
 	"strconv"
 	"strings"
 	"testing"
@@ -121,6 +123,7 @@ func c06Oracle(c *vlib.Case) *vlib.Violation {
 					}
 				}
 			}
+			class = c06RefineLocationClass(c.Project, class, first, k)
 			return vlib.V("c06:in-process:"+class, "build #%d differs from build #0 of the same project:\n #0: %s\n #%d: %s%s", i, pretty(first), i, pretty(k), detail)
 		}
 	}
@@ -143,9 +146,60 @@ func c06Oracle(c *vlib.Case) *vlib.Violation {
 				}
 			}
 		}
+		class = c06RefineLocationClass(c.Project, class, first, info)
 		return vlib.V("c06:fresh-process:"+class, "a build in a fresh process differs:\n here:  %s\n there: %s", pretty(first), pretty(info))
 	}
 	return nil
+}
+
+var c06LocRe = regexp.MustCompile(`file="([^"]*)" index=(\d+) line=(\d+)`)
+
+// c06RefineLocationClass: two builds report the same message at two places.  When the two places lie in the bodies of two
+// different TYPE directives, several user types are faulty and the schema library reports whichever its iteration over the
+// type list (a Go map) meets first - the class says so, it is the signature of the open finding N7.
+func c06RefineLocationClass(p *vlib.Project, class, a, b string) string {
+	if !strings.HasPrefix(class, "error-location:") {
+		return class
+	}
+	ma, mb := c06LocRe.FindStringSubmatch(a), c06LocRe.FindStringSubmatch(b)
+	if ma == nil || mb == nil {
+		return class
+	}
+	la, _ := strconv.Atoi(ma[3])
+	lb, _ := strconv.Atoi(mb[3])
+	ta, tb := c06TypeBlockAt(p, ma[1], la), c06TypeBlockAt(p, mb[1], lb)
+	if ta != "" && tb != "" && ta != tb {
+		return "error-location-among-faulty-types:" + strings.TrimPrefix(class, "error-location:")
+	}
+	return class
+}
+
+// c06TypeBlockAt names the TYPE directive (file:line of its keyword) whose block holds the given line, "" if the line
+// belongs to another kind of root directive.  The directive tree of the project is read through the verif accessors.
+func c06TypeBlockAt(p *vlib.Project, file string, line int) string {
+	q := p.Clone()
+	q.Banned = nil
+	c, out, dir, done := vlib.BuildCore(q)
+	defer done()
+	if c == nil || out.Crashed() {
+		return ""
+	}
+	pl := vlib.WithPlayground(p)
+	best, bestLine, bestType := "", 0, false
+	for _, d := range c.VerifDirectives() {
+		f := vlib.RelName(d.VerifKeywordFile(), dir)
+		if f != file {
+			continue
+		}
+		l := vlib.LineOf(pl.Files[f], int(d.VerifKeywordBegin()))
+		if l <= line && l >= bestLine {
+			best, bestLine, bestType = fmt.Sprintf("%s:%d", f, l), l, d.Type() == directive.Type
+		}
+	}
+	if !bestType {
+		return ""
+	}
+	return best
 }
 
 func pretty(k string) string { return strings.ReplaceAll(k, "\x00", " | ") }
